@@ -153,12 +153,87 @@ class ImmutabilityGuard:
     arguments and compares them after the call. Library-internal calls (depth > 0) are passed through unchecked: internal
     helpers may use scratch buffers by design. Violations are collected in self.events and drained by the engine per case."""
 
-    def __init__(self, prefixes, exclude=()):
+    def __init__(self, prefixes, exclude=(), layout_prefixes=()):
         self.prefixes = tuple(prefixes)
         self.exclude = set(exclude)
+        self.layout_prefixes = tuple(layout_prefixes)
         self.depth = 0
         self.events = []
         self.installed = 0
+
+    # ---- memory-layout metamorphic oracle: the result of a deterministic function must not depend on whether its array
+    # arguments are C-contiguous, Fortran-ordered or strided views (opt-in per module prefix)
+    @staticmethod
+    def _relayout(x):
+        if isinstance(x, np.ndarray) and x.ndim >= 2 and 1 < x.size <= 65536 and x.dtype.kind in 'biufc':
+            return np.asfortranarray(x) if x.flags['C_CONTIGUOUS'] else np.ascontiguousarray(x)
+        if hasattr(x, 'detach') and hasattr(x, 'is_contiguous') and getattr(x, 'ndim', 0) >= 2 and 1 < x.numel() <= 65536 and not x.requires_grad:
+            if x.is_contiguous():
+                return x.transpose(-1, -2).contiguous().transpose(-1, -2)
+            return x.contiguous()
+        return None
+
+    @staticmethod
+    def _flat_numeric(r):
+        """list of float64/complex128 arrays of a result, or None if it contains something that cannot be compared"""
+        if isinstance(r, np.ndarray):
+            return [r] if r.dtype.kind in 'biufc' else None
+        if hasattr(r, 'detach') and hasattr(r, 'shape'):
+            return [r.detach().cpu().numpy()]
+        if isinstance(r, (bool, int, float, complex, np.generic)):
+            return [np.asarray(r)]
+        if isinstance(r, (tuple, list)):
+            out = []
+            for y in r:
+                z = ImmutabilityGuard._flat_numeric(y)
+                if z is None:
+                    return None
+                out += z
+            return out
+        return None
+
+    def _layout_check(self, f, qual, a, kw, r):
+        import inspect
+        try:
+            if 'seed' in inspect.signature(f).parameters:
+                return
+        except (TypeError, ValueError):
+            return
+        alt_a = [self._relayout(x) for x in a]
+        alt_kw = {k: self._relayout(v) for k, v in kw.items()}
+        if all(x is None for x in alt_a) and all(v is None for v in alt_kw.values()):
+            return
+        ref_ = self._flat_numeric(r)
+        if ref_ is None:
+            return
+        a2 = [x if y is None else y for x, y in zip(a, alt_a)]
+        kw2 = {k: (kw[k] if alt_kw[k] is None else alt_kw[k]) for k in kw}
+        self.depth += 1
+        try:
+            try:
+                r2 = f(*a2, **kw2)
+            except Exception as e:
+                self.events.append((qual, 'layout:raises %s: %s' % (type(e).__name__, str(e)[:120])))
+                return
+        finally:
+            self.depth -= 1
+        got = self._flat_numeric(r2)
+        if got is None or len(got) != len(ref_):
+            return
+        for x, y in zip(ref_, got):
+            if x.shape != y.shape:
+                self.events.append((qual, 'layout:shape %s vs %s' % (x.shape, y.shape)))
+                return
+            if x.size and x.dtype.kind in 'fc' or y.dtype.kind in 'fc':
+                with np.errstate(all='ignore'):
+                    d = np.abs(x.astype(np.complex128) - y.astype(np.complex128))
+                    sc = max(1.0, float(np.nanmax(np.abs(x))) if x.size else 1.0)
+                    bad = np.isfinite(x).all() and (not np.isfinite(y).all() or float(d.max() if d.size else 0.0) > 1e-6 * sc)  # 1e-6: square roots at a spectrum edge amplify eps to ~1e-8
+            else:
+                bad = not np.array_equal(x, y)
+            if bad:
+                self.events.append((qual, 'layout:value differs'))
+                return
 
     @staticmethod
     def _snap(x):
@@ -199,6 +274,8 @@ class ImmutabilityGuard:
             for i, x, b in before:
                 if b is not None and guard._changed(x, b):
                     guard.events.append((qual, i))
+            if guard.layout_prefixes and any(qual.startswith(p) for p in guard.layout_prefixes):
+                guard._layout_check(f, qual, a, kw, r)
             return r
         wrapper.__immutability_guard__ = True
         return wrapper
